@@ -53,6 +53,22 @@ class FileProxy:
         s.point(Op("readline", file_obj(s, self._path), False))
         return self._f.readline(*a)
 
+    def flush(self):
+        s = cur()
+        s.point(Op("flush", file_obj(s, self._path), True))
+        return self._f.flush()
+
+    def write(self, data):
+        s = cur()
+        s.point(Op("write", file_obj(s, self._path), True))
+        return self._f.write(data)
+
+    def close(self):
+        if not self._f.closed and self._f.writable():
+            s = cur()
+            s.point(Op("close", file_obj(s, self._path), True))      # closing flushes buffered data
+        return self._f.close()
+
     def __getattr__(self, name):
         return getattr(self._f, name)
 
